@@ -64,7 +64,15 @@ func (h *Helium) Subscribe(ctx context.Context) (uuid.UUID, <-chan types.Service
 
 // Unsubscribe .
 func (h *Helium) Unsubscribe(ID uuid.UUID) {
-	h.unsubChan <- ID.ID()
+	key := ID.ID()
+	// The dispatch loop is the only reader of unsubChan, and it may be blocked right now
+	// sending a status to this very subscriber (which has stopped reading because it is
+	// unsubscribing). Cancel the subscription first so that dispatch lets go of it,
+	// otherwise both sides wait for each other forever.
+	if entry, ok := h.subs.Get(key); ok {
+		entry.cancel()
+	}
+	h.unsubChan <- key
 }
 
 func (h *Helium) start(ctx context.Context) {
